@@ -17,6 +17,7 @@ type GMethod struct {
 
 type GCall struct {
 	Pkg, Class, Name string // Class == "" : call without a receiver type (skipped by the tool)
+	Line, Col        int    // source position of the call site (0 = model without positions)
 }
 
 func (m GMethod) Full() string { return m.Pkg + "." + m.Class + "." + m.Name }
@@ -46,7 +47,11 @@ func (g GModel) ToDeps() []core_domain.CodeDataStruct {
 		}
 		f := core_domain.CodeFunction{Name: m.Name}
 		for _, c := range m.Calls {
-			f.FunctionCalls = append(f.FunctionCalls, core_domain.CodeCall{Package: c.Pkg, NodeName: c.Class, FunctionName: c.Name})
+			cc := core_domain.CodeCall{Package: c.Pkg, NodeName: c.Class, FunctionName: c.Name}
+			if c.Line > 0 {
+				cc.Position = core_domain.CodePosition{StartLine: c.Line, StartLinePosition: c.Col, StopLine: c.Line, StopLinePosition: c.Col + len(c.Name)}
+			}
+			f.FunctionCalls = append(f.FunctionCalls, cc)
 		}
 		ds.Functions = append(ds.Functions, f)
 	}
